@@ -210,6 +210,8 @@ def run_property(prop, tier):
                 undecided.append((res["unit"], "function under contract yielded zero paths"))
         if spec[0] == "differential":
             diff_runs += res.get("samples", 0)
+            for u in res.get("unsupported", [])[:3]:
+                undecided.append((res["unit"], "unsupported: " + str(u["reason"])))
             if res.get("mismatches"):
                 diff_mismatch += len(res["mismatches"])
                 crashed.append((res["unit"], "executor disagrees with CPython: " + json.dumps(res["mismatches"][:2])))
